@@ -31,6 +31,7 @@ CONSTANTS MaxTok, MaxDecls, MinDecls,
           Faults,                            \* fault rules enabled ({} = valid programs only)
           OnlyFaulty,                        \* emit only programs that carry a fault
           Grow,                              \* simulation: list nonterminals do not stop below this many terminals
+          Shadowing,                         \* locals may shadow procedure names
           ForceAfter                         \* simulation: after this many terminals a fault production is preferred (0 = off)
 
 VARIABLES phase, plan, tys, stack, out, ntok, cur, fault, lsigs
@@ -179,6 +180,11 @@ PlanDone ==
 
 \* ---- derive phase --------------------------------------------------------
 Scope == cur.params \o cur.locals            \* seq of [name, ref, ty, bind]
+\* a local may carry the name of a declared procedure: inside this procedure the name then denotes the local
+\* (locals before globals), so that procedure cannot be called here
+\* (the procedure's OWN name is excluded: the pinned server resolves the name in a procedure's header through
+\*  the local table as well, an observed defect outside the listed properties' core, see DESIGN 12.4)
+ShadowNames == IF Shadowing THEN {plan[d].name : d \in {e \in DOMAIN plan : plan[e].kind = "proc" /\ ~plan[e].dup}} \ {cur.proc} ELSE {}
 ScopeNames == {Scope[j].name : j \in DOMAIN Scope}
 Usable == {j \in DOMAIN Scope : Scope[j].ty # UNK}
 \* variables that yield type ty after k index steps
@@ -251,7 +257,7 @@ Prods(sym) ==
          \cup {<<O("VarDec", nm), Kw("var")>> \o IdNode(nm, "local:" \o cur.proc \o ":" \o nm, "decl") \o <<Sym(":")>>
                   \o TypeExprRhs(dims, base, "") \o <<Sym(";"), C,
                   A("enterLocal", [name |-> nm, dims |-> dims, base |-> base, d |-> ty]), N("Locals", ty, "")>>
-                 : nm \in VarNames \ ScopeNames, dims \in Dims, base \in TypeRefs(ty)}
+                 : nm \in (VarNames \cup ShadowNames) \ ScopeNames, dims \in Dims, base \in TypeRefs(ty)}
          \cup (IF FaultOn("RedeclarationAsVariable") /\ ScopeNames # {}
                THEN {<<Mark("RedeclarationAsVariable"), O("VarDec", nm), Kw("var")>>
                       \o Culprit("RedeclarationAsVariable", IdNode(nm, "local:" \o cur.proc \o ":" \o nm \o ":dup", "decl"))
@@ -271,7 +277,7 @@ Prods(sym) ==
           <<O("While", ""), Kw("while"), Sym("("), N("Expr", BOOL, ""), Sym(")"), N("Stmt", 0, sym.x), C>>}
          \cup (IF sym.x = "closed" THEN {} ELSE {<<O("If", ""), Kw("if"), Sym("("), N("Expr", BOOL, ""), Sym(")"), N("Stmt", 0, ""), C>>})
          \cup (IF VarsReaching(INT) = {} THEN {} ELSE {<<O("Assign", ""), N("Var", INT, ""), Sym(":="), N("Expr", INT, ""), Sym(";"), C>>})
-         \cup {CallRhs(c, CallArgs(c.params)) : c \in {x \in Callees : Callable(x)}}
+         \cup {CallRhs(c, CallArgs(c.params)) : c \in {x \in Callees : Callable(x) /\ x.name \notin ScopeNames}}
          \* ---- fault productions at statement level ----
          \cup (IF FaultOn("AssignmentHasDifferentTypes") /\ VarsReaching(INT) # {}
                THEN {<<Mark("AssignmentHasDifferentTypes")>> \o Culprit("AssignmentHasDifferentTypes",
@@ -294,21 +300,21 @@ Prods(sym) ==
                        : <<nm, b>> \in {<<"int", "builtin:int">>} \cup {<<Scope[v].name, Scope[v].bind>> : v \in DOMAIN Scope}} ELSE {})
          \cup (IF FaultOn("TooFewArguments")
                THEN {<<Mark("TooFewArguments")>> \o Culprit("TooFewArguments", CallRhs(c, CallArgs(SubSeq(c.params, 1, Len(c.params) - 1))))
-                       : c \in {x \in Callees : Callable(x) /\ Len(x.params) >= 1}} ELSE {})
+                       : c \in {x \in Callees : Callable(x) /\ x.name \notin ScopeNames /\ Len(x.params) >= 1}} ELSE {})
          \cup (IF FaultOn("TooManyArguments")
                THEN {<<Mark("TooManyArguments")>> \o Culprit("TooManyArguments",
                        CallRhs(c, CallArgs(c.params) \o (IF c.params = <<>> THEN <<>> ELSE <<Sym(",")>>) \o IntLit(1)))
-                       : c \in {x \in Callees : Callable(x)}} ELSE {})
+                       : c \in {x \in Callees : Callable(x) /\ x.name \notin ScopeNames}} ELSE {})
          \cup (IF FaultOn("ArgumentsTypeMismatch")
                THEN {<<Mark("ArgumentsTypeMismatch")>> \o
                        CallRhs(c, Flat([j \in DOMAIN c.params |-> (IF j > 1 THEN <<Sym(",")>> ELSE <<>>)
                                           \o (IF j = k THEN Culprit("ArgumentsTypeMismatch", CmpInt) ELSE <<ArgFor(c.params[j])>>)]))
-                       : <<c, k>> \in {<<x, j>> \in Callees \X (1..3) : Callable(x) /\ j <= Len(x.params) /\ ~x.params[j].ref}} ELSE {})
+                       : <<c, k>> \in {<<x, j>> \in Callees \X (1..3) : Callable(x) /\ x.name \notin ScopeNames /\ j <= Len(x.params) /\ ~x.params[j].ref}} ELSE {})
          \cup (IF FaultOn("ArgumentMustBeAVariable")
                THEN {<<Mark("ArgumentMustBeAVariable")>> \o
                        CallRhs(c, Flat([j \in DOMAIN c.params |-> (IF j > 1 THEN <<Sym(",")>> ELSE <<>>)
                                           \o (IF j = k THEN Culprit("ArgumentMustBeAVariable", IntLit(1)) ELSE <<ArgFor(c.params[j])>>)]))
-                       : <<c, k>> \in {<<x, j>> \in Callees \X (1..3) : Callable(x) /\ j <= Len(x.params) /\ x.params[j].ref /\ x.params[j].ty = INT}} ELSE {})
+                       : <<c, k>> \in {<<x, j>> \in Callees \X (1..3) : Callable(x) /\ x.name \notin ScopeNames /\ j <= Len(x.params) /\ x.params[j].ref /\ x.params[j].ty = INT}} ELSE {})
     [] n = "Var" -> {VarRhs(vk[1], vk[2]) : vk \in VarsReaching(ty)}
                     \cup (IF ty = INT /\ FaultOn("UndefinedVariable")
                           THEN {<<Mark("UndefinedVariable")>> \o Culprit("UndefinedVariable", <<O("NamedVar", "undefinedvar"), Id("undefinedvar", "", "use"), C>>)} ELSE {})
